@@ -392,12 +392,20 @@ func (b *Bucket) MoveBucket(key []byte, dstBucket *Bucket) (err error) {
 	}
 
 	// remove the sub-bucket from the source bucket
+	child := b.buckets[string(newKey)]
 	delete(b.buckets, string(newKey))
 	c.node().del(newKey)
 
 	// add te sub-bucket to the destination bucket
 	newValue := cloneBytes(v)
 	curDst.node().put(newKey, newKey, newValue, 0, common.BucketLeafFlag)
+
+	// If the sub-bucket was already opened in this transaction, it may hold
+	// changes which haven't been spilled yet. Hand the cached instance over
+	// to the destination bucket so that those changes aren't lost.
+	if child != nil && dstBucket.buckets != nil {
+		dstBucket.buckets[string(newKey)] = child
+	}
 
 	return nil
 }
